@@ -14,6 +14,7 @@ ORDER of proposals even if it happened to be stable across the seeds tried).
 import json
 import os
 import random
+import re
 import sys
 
 sys.path.insert(0, os.path.join(os.path.dirname(os.path.abspath(__file__)),
@@ -50,6 +51,17 @@ ENUM = ('(declare-datatype Color ((red) (green) (blue) (cyan) (black)))\n'
 APP = {'mode': 'app', 'head': 'p',
        'markers': ['declare-datatype', 'red', 'green', 'blue', 'cyan',
                    'black']}
+
+
+_FRESH = re.compile(r'x\d+__fresh')
+
+
+def canon_fresh(toks):
+    """Rename the names IntroduceFreshVariable made (x<node id>__fresh) by
+    order of first occurrence."""
+    ren = {}
+    return [ren.setdefault(t, 'x#%d__fresh' % len(ren))
+            if _FRESH.fullmatch(t) else t for t in toks]
 
 
 def theory_configs(r, tier):
@@ -89,6 +101,44 @@ def theory_configs(r, tier):
                             'markers': ['assert', '>', 'check-sat']},
                     ['--strategy', 'ddmin', '-j', '1'] + extra,
                     {'strategy': 'ddmin', 'jobs': 1, 'n': 'F%d' % k}))
+    # fresh variables for terms that an earlier accepted substitution rebuilt:
+    # the name carries the id of the rebuilt node (see known finding
+    # C18-fresh-variable-ids)
+    prod = ('(declare-const a Int)\n'
+            '(assert (> (* (+ (- a 0) a) (- a a)) 0))\n(check-sat)\n')
+    for st in ('hierarchical', 'hybrid'):
+        out.append((prod, {'mode': 'prod2', 'head': '*'},
+                    ['--strategy', st, '-j', '1'],
+                    {'strategy': st, 'jobs': 1, 'n': 'P' + st,
+                     'delays': [0, 40, 90]}))
+    # minimising a hang: every check that reproduces it ends in the timeout,
+    # having printed as many progress lines as its timing allowed
+    hang = ('(set-logic QF_LIA)\n(declare-const a Int)\n'
+            '(declare-const bug Int)\n(assert (> a 1))\n'
+            '(assert (< bug a))\n(assert (> a 7))\n(assert (< a 9))\n'
+            '(assert (> bug 3))\n(check-sat)\n(exit)\n')
+    for st in ('ddmin', 'hierarchical'):
+        out.append((hang, {'mode': 'contains', 'markers': ['bug'],
+                           'accept': {'ticks_ms': 400}},
+                    ['--strategy', st, '-j', '1', '--timeout', '1.0',
+                     '--disable-all', '--erase-node'],
+                    {'strategy': st, 'jobs': 1, 'n': 'H' + st,
+                     'delays': [0, 150, 250]}))
+    # a slow reference solver (-c) under automatic time limits: the limit of
+    # the reference solver derives from ITS golden run
+    for st in ('ddmin', ):
+        out.append((hang.replace('(check-sat)',
+                                 '(assert (> a 2))\n(assert (> a 3))\n'
+                                 '(assert (> a 4))\n(check-sat)'),
+                    {'mode': 'contains', 'markers': ['bug']},
+                    ['--strategy', st, '-j', '1', '--disable-all',
+                     '--erase-node'],
+                    {'strategy': st, 'jobs': 1, 'n': 'X' + st,
+                     'cc_spec': {'mode': 'contains', 'markers': ['bug'],
+                                 'accept': {'out': 'unsat\n', 'exit': 0},
+                                 'reject': {'out': 'sat\n', 'exit': 0},
+                                 'sleep_ms': 1000},
+                     'cc_delays': [0, 500, 1000]}))
     return out
 
 
@@ -121,7 +171,7 @@ def main():
     for text, spec, opts, meta in base:
         for k, hs in enumerate(SEEDS):
             sp = dict(spec)
-            sp['delay_ms'] = [0, 4, 9][k]
+            sp['delay_ms'] = meta.get('delays', [0, 4, 9])[k]
             sp['delay_seed'] = r.randint(0, 10**6)
             m = dict(meta)
             m['env'] = {'PYTHONHASHSEED': hs}
@@ -129,6 +179,10 @@ def main():
                 # the main loop is delayed after every successful result for
                 # longer than a check takes (timing must not matter)
                 m['env']['VERIF_MAIN_DELAY_MS'] = '250'
+            if m.get('cc_spec'):
+                m['cc_spec'] = dict(m['cc_spec'],
+                                    delay_ms=m['cc_delays'][k],
+                                    delay_seed=r.randint(0, 10**6))
             m['group'] = meta.get('n', 0)
             cfgs.append((text, sp, list(opts), m))
     items = S.validate(rep, S.execute(cfgs, label='c18'))
@@ -152,6 +206,21 @@ def main():
                 d = next((i for i in range(min(len(seqs[k]), len(seqs[0])))
                           if seqs[k][i] != seqs[0][i]),
                          min(len(seqs[k]), len(seqs[0])))
+                if (d < min(len(seqs[k]), len(seqs[0]))
+                        and canon_fresh(seqs[k][d]) == canon_fresh(seqs[0][d])):
+                    # the first difference is in the numbers of the names of
+                    # fresh variables only
+                    rep.violation(
+                        'fresh-variable-numbers-differ:' +
+                        it.meta.get('strategy', '?'),
+                        f'runs with PYTHONHASHSEED={SEEDS[0]} and {SEEDS[k]} '
+                        f'(and different command delays) first differ at '
+                        f'accepted input {d + 1}, in the numbers of '
+                        f'x<N>__fresh names only: '
+                        f'{" ".join(seqs[0][d])!r} vs '
+                        f'{" ".join(seqs[k][d])!r}; options {it.opts}',
+                        S.replay_obj(ref))
+                    continue
                 rep.violation(
                     'accepted-sequence-differs:' + key,
                     f'runs with PYTHONHASHSEED={SEEDS[0]} and {SEEDS[k]} go '
